@@ -21,6 +21,7 @@ struct MonitorConfig {
     int maxTClauses = 600;       // distinct theory clauses logged per run
     int maxTermChars = 60000;    // a printed term longer than this is logged as too large
     uint64_t rupWorkBudget = 400000000ull;
+    bool dumpDbOnFailure = false;
 };
 
 void monitorsInstall(MonitorConfig const & cfg, Json const & unusualPlan);
